@@ -11,6 +11,7 @@ import (
 // Lookup order: the job's profile, then the global table.
 var fileProfile = map[string]string{
 	"intr_msgcodec.go":     "chain",
+	"intr_json_intrec.go":  "chain",
 	"intr_blob.go":         "consensus",
 	"intr_protosize.go":    "poolsync",
 	"intr_proto_adm.go":    "admission",
